@@ -206,14 +206,18 @@ def plan_c09(c):
     n = gen_replay(c, "enc", "Trace_Wire", "Trace_Wire_C09.cfg", "C09 encoder entry points")
     m, _ = tv(c, "enc", "Trace_Wire", "Trace_Wire_C09.cfg", "C09 encoder entry points (seeded rich packets)")
     c.traces += m
-    return n + m
+    d, _ = tv(c, "enc", "Trace_Wire", "Trace_Wire_C09.cfg", "C09 encoder entry points (debug build)", profile="debug")
+    c.traces += d
+    return n + m + d
 
 
 def plan_c10(c):
     n = gen_replay(c, "enc", "Trace_Wire", "Trace_Wire_C10.cfg", "C10 conformance of emitted bytes")
     m, _ = tv(c, "enc", "Trace_Wire", "Trace_Wire_C10.cfg", "C10 conformance of emitted bytes (seeded rich packets)")
     c.traces += m
-    return n + m
+    d, _ = tv(c, "enc", "Trace_Wire", "Trace_Wire_C10.cfg", "C10 conformance of emitted bytes (debug build)", profile="debug")
+    c.traces += d
+    return n + m + d
 
 
 def plan_c07(c):
